@@ -26,12 +26,12 @@ type c14Params struct {
 }
 
 type c14Loop struct {
-	NumVB      int   `json:"num_vb"`
-	IntervalMs int   `json:"interval_ms"`
-	UserEvents int   `json:"user_events"`
-	Seed       int64 `json:"seed"`
-	Membership bool  `json:"membership"`
-	ReplyDelayUs int `json:"reply_delay_us"` // the fed-back event reaches the client before the write's reply
+	NumVB        int   `json:"num_vb"`
+	IntervalMs   int   `json:"interval_ms"`
+	UserEvents   int   `json:"user_events"`
+	Seed         int64 `json:"seed"`
+	Membership   bool  `json:"membership"`
+	ReplyDelayUs int   `json:"reply_delay_us"` // the fed-back event reaches the client before the write's reply
 }
 
 const c14Prefix = "_connector:cbgo:"
@@ -336,7 +336,7 @@ func c14RunLoop(sc drv.Scenario, lp *c14Loop) drv.Result {
 	closed := full.Close(20 * time.Second)
 	res := drv.Result{Verdict: drv.Held, Checks: 1, Nontrivial: fedBack > 0, Events: map[string]int{"checkpoint_writes": last, "own_writes_streamed_back": fedBack, "user_events": lp.UserEvents, "deliveries": cons.Count()},
 		TraceHash: drv.Hash("loop", fmt.Sprint(lp.NumVB, lp.IntervalMs, lp.UserEvents, lp.Membership, last, fedBack)),
-		Sample: map[string]any{"kind": "loop", "vbuckets": lp.NumVB, "interval_ms": lp.IntervalMs, "user_events": lp.UserEvents, "couchbase_membership": lp.Membership, "checkpoint_writes_total": last, "own_writes_streamed_back": fedBack, "converged": converged}}
+		Sample:    map[string]any{"kind": "loop", "vbuckets": lp.NumVB, "interval_ms": lp.IntervalMs, "user_events": lp.UserEvents, "couchbase_membership": lp.Membership, "checkpoint_writes_total": last, "own_writes_streamed_back": fedBack, "converged": converged}}
 	if !closed {
 		res.Foreign = append(res.Foreign, "C13: close did not complete")
 	}
